@@ -5,17 +5,14 @@ CONSTANTS
   Durs = {0}
   Rets <- RetsAll
   Advs <- AdvsExact
-  Decs <- DecsAll
+  Decs <- DecsSleep
   BFaults <- BFaultsNone
   Ras <- RasSome
-  Modes = {"call", "exec"}
+  Modes = {"exec"}
   RunGaps <- GapsNone
   NRuns = 1
-  Configs <- ConfigsC05
-  RecordHist = FALSE
+  Configs <- ConfigsC05x
+  RecordHist = TRUE
 INVARIANT NoViolation
-INVARIANT AttemptsBounded
-INVARIANT InvokeWithinDeadline
-INVARIANT SleepWithinRemaining
-INVARIANT DeliveriesRelated
+INVARIANT ExportBehaviours
 CHECK_DEADLOCK FALSE
